@@ -231,7 +231,8 @@ func runC07(e *Env) {
 					check(i, got, "read")
 					consumed += len(got)
 				case "Until":
-					if len(got) == 0 || got[len(got)-1] != '\n' {
+					// (the delimiter test looks at content: void once a local Close has released the buffers)
+					if len(got) == 0 || (got[len(got)-1] != '\n' && closeInvokedSeq < 0) {
 						e.Fail("read-length", "length/Until", "call %d Until returned %q without delimiter and nil error", i, trunc(got))
 					}
 					check(i, got, "until")
